@@ -531,7 +531,8 @@ fn msg_to_value(m: Message) -> Result<Value, RepeError> {
 }
 /// Response frame whose body the entry point `v` can decode.
 fn response_v(id: u64, notify: bool, tag: i64, c: i64, v: usize) -> Vec<u8> {
-    let q = b"/t";
+    let q = odd_query(tag.max(0) as usize);
+    let q = q.as_slice();
     match v % NVARIANTS {
         4 | 5 => RawFrame::request(id, notify, 1, q, 1, &beve::to_vec(&json!({ "tag": tag, "c": c })).unwrap()).to_vec(),
         6..=9 => {
@@ -539,7 +540,7 @@ fn response_v(id: u64, notify: bool, tag: i64, c: i64, v: usize) -> Vec<u8> {
             let body = std::mem::take(&mut m.body);
             RawFrame::request(id, notify, 1, q, m.header.body_format, &body).to_vec()
         }
-        _ => response(id, notify, tag, c),
+        _ => response_q(id, notify, tag, c, tag.max(0) as usize),
     }
 }
 
@@ -692,10 +693,11 @@ fn run_mux_case(h: &H, out: &mut Out, idx: &str, case: &MuxCase) {
     let unknown_base = ids.iter().max().copied().unwrap_or(0) + 1_000_000_000;
     let mut wire = Vec::new();
     let mut meta: Vec<(Option<usize>, bool)> = Vec::new(); // (caller whose id is used, notify)
+    let mut badver: Vec<bool> = Vec::new();
     for (pos, t) in case.script.iter().enumerate() {
         let k: usize = t[1..].parse().unwrap();
         let (id, notify, who) = match &t[..1] {
-            "r" => (ids[k], false, Some(k)),
+            "r" | "v" => (ids[k], false, Some(k)),
             "n" => (ids[k], true, Some(k)),
             "u" | "e" => (unknown_base + k as u64, false, None),
             _ => (unknown_base + k as u64, true, None),
@@ -712,10 +714,30 @@ fn run_mux_case(h: &H, out: &mut Out, idx: &str, case: &MuxCase) {
         } else {
             wire.push(response_v(id, notify, pos as i64, who.map(|x| x as i64).unwrap_or(-1), vars[who.unwrap()]));
         }
+        // header fields the clients must not care about, derived from the position (replay-exact):
+        // the value of a set notify byte (1, 2, 255), the reserved word, the echoed query of a response
+        {
+            let f = wire.last_mut().unwrap();
+            if notify {
+                f[11] = [1u8, 2, 255][pos % 3];
+            }
+            if pos % 2 == 1 {
+                f[12..16].copy_from_slice(&(0x0101_0101u32.wrapping_mul(pos as u32 + 1)).to_le_bytes());
+            }
+            if &t[..1] == "v" {
+                f[10] = [0u8, 2, 255][pos % 3]; // a response with a wrong protocol version: that call fails, nobody else
+            }
+        }
         meta.push((who, notify));
+        badver.push(&t[..1] == "v");
         out.count(&format!("mux.frame.{}", &t[..1]));
     }
     let n_notify = meta.iter().filter(|m| m.1).count();
+    // independent expectation: every caller was registered before the first frame was sent, so it gets the
+    // first frame that carries its id (and is not diverted to the subscriber on the WebSocket client)
+    let first_for = |c: usize| -> Option<usize> {
+        meta.iter().position(|m| m.0 == Some(c) && !(case.kind == 2 && m.1))
+    };
     if case.kind == 2 {
         wire.push(response(unknown_base + 999_999, true, -1, -1)); // end marker for the subscriber
     }
@@ -746,7 +768,19 @@ fn run_mux_case(h: &H, out: &mut Out, idx: &str, case: &MuxCase) {
             }
             Some((c, Err(e))) => {
                 got[c] = "E".into();
-                fail(out, "call_failed", format!("caller {} failed: {}", c, io_kind(&e)), &ids_s);
+                let expected_bad_version = first_for(c).map(|p| badver[p]).unwrap_or(false);
+                if !(expected_bad_version && matches!(e, RepeError::VersionMismatch(_))) {
+                    fail(out, "call_failed", format!("caller {} failed: {}", c, io_kind(&e)), &ids_s);
+                }
+            }
+        }
+    }
+    for c in 0..case.n {
+        if let (Some(p), Ok(t)) = (first_for(c), got[c].parse::<usize>()) {
+            if badver[p] {
+                fail(out, "bad_version_accepted", format!("caller {} returned frame #{} although the first frame with its id (#{}) had a wrong version", c, t, p), &ids_s);
+            } else if t != p {
+                fail(out, "not_first_response", format!("caller {} returned frame #{}, the first frame carrying its id was #{}", c, t, p), &ids_s);
             }
         }
     }
@@ -813,21 +847,22 @@ fn run_batch_case(h: &H, out: &mut Out, idx: &str, case: &BatchCase) {
         }
     };
     let reqs: Vec<(String, Value)> = (0..case.n).map(|j| ("/t".to_string(), req_body(j))).collect();
+    let twin = case.n % 2 == 1; // odd sizes go through `batch_json_with_timeout`
     let (btx, brx) = smpsc::channel::<Vec<Result<Value, RepeError>>>();
     match s.cl.clone() {
         Cl::B(cl) => {
             std::thread::spawn(move || {
-                let _ = btx.send(cl.batch_json(reqs));
+                let _ = btx.send(if twin { cl.batch_json_with_timeout(reqs, CALL_TIMEOUT) } else { cl.batch_json(reqs) });
             });
         }
         Cl::A(cl) => {
             h.rt.spawn(async move {
-                let _ = btx.send(cl.batch_json(reqs).await);
+                let _ = btx.send(if twin { cl.batch_json_with_timeout(reqs, CALL_TIMEOUT).await } else { cl.batch_json(reqs).await });
             });
         }
         Cl::W(cl) => {
             h.rt.spawn(async move {
-                let _ = btx.send(cl.batch_json(reqs).await);
+                let _ = btx.send(if twin { cl.batch_json_with_timeout(reqs, CALL_TIMEOUT).await } else { cl.batch_json(reqs).await });
             });
         }
     }
@@ -950,7 +985,13 @@ fn run_seq_case(h: &H, out: &mut Out, idx: &str, kind: usize, t: usize, k: usize
                     for j in 0..k {
                         // a notify now and then: it must consume an id of its own
                         if j % 3 == 1 {
-                            let _ = cl.notify_json("/n", &json!({"n": j}));
+                            let nb = json!({"n": j});
+                            let _ = match j % 4 {
+                                0 => cl.notify_json("/n", &nb),
+                                1 => cl.notify_typed_json("/n", &nb),
+                                2 => cl.notify_typed_beve("/n", &nb),
+                                _ => cl.notify_with_formats("/n", 1, Some(b"{}"), 2),
+                            };
                         }
                         if let Some(e) = check(j, cl.call_json("/t", &body(j))) {
                             let _ = dtx.send((w, j, e));
@@ -964,7 +1005,13 @@ fn run_seq_case(h: &H, out: &mut Out, idx: &str, kind: usize, t: usize, k: usize
                 h.rt.spawn(async move {
                     for j in 0..k {
                         if j % 3 == 1 {
-                            let _ = cl.notify_json("/n", &json!({"n": j})).await;
+                            let nb = json!({"n": j});
+                            let _ = match j % 4 {
+                                0 => cl.notify_json("/n", &nb).await,
+                                1 => cl.notify_typed_json("/n", &nb).await,
+                                2 => cl.notify_typed_beve("/n", &nb).await,
+                                _ => cl.notify_with_formats("/n", 1, Some(b"{}"), 2).await,
+                            };
                         }
                         if let Some(e) = check(j, cl.call_json("/t", &body(j)).await) {
                             let _ = dtx.send((w, j, e));
@@ -978,7 +1025,13 @@ fn run_seq_case(h: &H, out: &mut Out, idx: &str, kind: usize, t: usize, k: usize
                 h.rt.spawn(async move {
                     for j in 0..k {
                         if j % 3 == 1 {
-                            let _ = cl.notify_json("/n", &json!({"n": j})).await;
+                            let nb = json!({"n": j});
+                            let _ = match j % 4 {
+                                0 => cl.notify_json("/n", &nb).await,
+                                1 => cl.notify_typed_json("/n", &nb).await,
+                                2 => cl.notify_typed_beve("/n", &nb).await,
+                                _ => cl.notify_with_formats("/n", 1, Some(b"{}"), 2).await,
+                            };
                         }
                         if let Some(e) = check(j, cl.call_json("/t", &body(j)).await) {
                             let _ = dtx.send((w, j, e));
@@ -1342,14 +1395,15 @@ fn random_script(r: &mut Rng, n: usize) -> Vec<String> {
     };
     for _ in 0..extras {
         let pos = r.below(script.len() as u64 + 1) as usize;
-        let t = match r.below(9) {
+        let t = match r.below(10) {
+            9 => format!("v{}", r.below(n.max(1) as u64)),
             8 => format!("e{}", r.below(50)),
             0 | 1 => format!("u{}", r.below(50)),
             2 => format!("x{}", r.below(50)),
             3 | 4 => format!("r{}", r.below(n.max(1) as u64)), // duplicate (or early second copy)
             _ => format!("n{}", r.below(n.max(1) as u64)),
         };
-        if n == 0 && (t.starts_with('r') || t.starts_with('n')) {
+        if n == 0 && (t.starts_with('r') || t.starts_with('n') || t.starts_with('v')) {
             continue;
         }
         script.insert(pos, t);
@@ -1382,7 +1436,7 @@ fn gen_mux(args: &Args, r: &mut Rng) -> (Vec<MuxCase>, Vec<BatchCase>) {
         }
         // every single insertion position of each adversarial kind for N = 2 (all orders)
         for p in permutations(2) {
-            for t in ["u0", "u1", "u2", "u3", "e0", "x0", "x1", "n0", "n1", "r0", "r1"] {
+            for t in ["u0", "u1", "u2", "u3", "e0", "x0", "x1", "n0", "n1", "r0", "r1", "v0", "v1"] {
                 for pos in 0..=2 {
                     let mut script: Vec<String> = p.iter().map(|c| format!("r{c}")).collect();
                     script.insert(pos, t.to_string());
@@ -1491,7 +1545,12 @@ fn run_dead_case(h: &H, out: &mut Out, idx: &str, case: &DeadCase) {
     };
     let tmo = if case.tmo { Some(CALL_TIMEOUT) } else { None };
     for c in 0..case.n {
-        s.call(h, c, req_body(c), tmo);
+        if case.when == "before" {
+            s.call(h, c, req_body(c), tmo);
+        } else {
+            // entry point derived from the case (replay-exact)
+            s.call_v(h, c, (case.n * 7 + c * 3 + case.cut + case.answered) % NVARIANTS, tmo);
+        }
     }
     let mut outcomes: Vec<String> = vec!["HANG".into(); case.n];
     let mut ids: Vec<u64> = vec![0; case.n];
@@ -1511,7 +1570,7 @@ fn run_dead_case(h: &H, out: &mut Out, idx: &str, case: &DeadCase) {
                         }
                     }
                 }
-                let answers: Vec<Vec<u8>> = (0..case.answered).map(|c| response(ids[c], false, c as i64, c as i64)).collect();
+                let answers: Vec<Vec<u8>> = (0..case.answered).map(|c| response_v(ids[c], false, c as i64, c as i64, variant_for(case.kind, (case.n * 7 + c * 3 + case.cut + case.answered) % NVARIANTS))).collect();
                 if !answers.is_empty() {
                     s.send(Cmd::Send(answers));
                     if let Err(e) = s.srv_done() {
